@@ -123,6 +123,13 @@ def abstract(body, mats, vecs, nonneg=("norm", "maxCoeff"), keep_rx=None, report
             md = re.match(r"^(const\s+)?(?:Real)?Scalar\s+(\w+)$", lhs)
             if md:
                 eff = "%sScalar %s = %s;" % (md.group(1) or "", md.group(2), "NONNEG_SCALAR()" if nn(rhs) else "nondet_Scalar()")
+            elif re.match(r"^(const\s+)?(?:Real)?Vector\s+(\w+)$", lhs):
+                # vector declared from an Eigen expression: same length as the first vector operand of the expression
+                nm = re.match(r"^(const\s+)?(?:Real)?Vector\s+(\w+)$", lhs).group(2)
+                ops = [t for t in re.findall(r"[\w>.-]+", rhs) if t.split("->")[-1].split(".")[-1] in vecs and "(" not in t]
+                if not ops:
+                    raise ExtractionBreak("vector declaration without a vector operand: %r" % norm[:100])
+                eff = "Scalar *%s = VEC_NEW(VEC_SIZE(%s));" % (nm, ops[0])
             elif re.match(r"^(const\s+)?[A-Z]\w*\s+\w+$", lhs):
                 raise ExtractionBreak("declaration of an Eigen object needs a sidecar rule: %r" % norm[:100])
             else:
@@ -143,7 +150,10 @@ def abstract(body, mats, vecs, nonneg=("norm", "maxCoeff"), keep_rx=None, report
         else:
             mz = re.match(r"^([\w>.-]+?)((?:\.(?:rightCols|block|col|head|leftCols)\(.*\))?)\.setZero\(\)$", norm)
             mc = re.match(r"^[\w>.-]+\.(adjoint_product)\((.*)\)$", norm)
-            if mz:
+            msw = re.match(r"^([\w>.-]+)\.swap\(([\w>.-]+)\)$", norm)
+            if msw and base_of(msw.group(1)) in vecs:
+                eff = "{ Scalar *verif_t = %s; %s = %s; %s = verif_t; };" % (msw.group(1), msw.group(1), msw.group(2), msw.group(2))
+            elif mz:
                 tgt = mz.group(1)
                 eff = ("MAT_TOUCH(%s);" % tgt) if base_of(tgt) in mats else ("HAVOC_VEC(%s);" % tgt)
             elif mc:
